@@ -426,10 +426,14 @@ func runC02(c *rt.Ctx) {
 	// above 3999). String and the verbs are documented to fall back to DefaultFormatter, so they must
 	// still give the canonical numeral for their own flags; MarshalText must report the error.
 	oldF := roman.Formatter
-	for mode := 0; mode < 2; mode++ {
+	for mode := 0; mode < 4; mode++ {
 		mode := mode
 		roman.Formatter = func(buf []byte, n roman.Number, f roman.Format) ([]byte, error) {
-			if mode == 0 || n > 3999 {
+			if mode%2 == 0 || n > 3999 {
+				if mode >= 2 { // the usual shape of a wrapper: the bytes it has together with its error
+					b, _ := roman.DefaultFormatter(buf, n, f)
+					return append(b, "?!"...), errors.New("formatter refuses")
+				}
 				return nil, errors.New("formatter refuses")
 			}
 			return roman.DefaultFormatter(buf, n, f)
@@ -458,7 +462,7 @@ func runC02(c *rt.Ctx) {
 					if s, want := num.String(), ref.RomanFormat(n, refRomanFlags(df)); s != want {
 						fail("String", s, want)
 					}
-					if b, err := num.MarshalText(); (mode == 0 || n > 3999) && n != 0 && err == nil {
+					if b, err := num.MarshalText(); (mode%2 == 0 || n > 3999) && n != 0 && err == nil {
 						fail("MarshalText", string(b), "an error")
 					}
 					w.Eval(8)
